@@ -464,6 +464,15 @@ func (tt *TermTable) Concat(a, b *Term) *Term {
 	if a.IsConst() && b.IsConst() && w <= 64 {
 		return tt.BVConst(a.cval<<uint(b.sort.W)|b.cval, w)
 	}
+	// concat(extract(h,k,x), extract(k-1,l,x)) = extract(h,l,x)
+	if a.op == "extract" && b.op == "extract" && a.args[0] == b.args[0] {
+		var ah, al, bh, bl int
+		fmt.Sscanf(a.name, "(_ extract %d %d)", &ah, &al)
+		fmt.Sscanf(b.name, "(_ extract %d %d)", &bh, &bl)
+		if al == bh+1 {
+			return tt.Extract(ah, bl, a.args[0])
+		}
+	}
 	return tt.mk("concat", "", BV(w), 0, a, b)
 }
 
